@@ -195,19 +195,22 @@ class NixSourceCode:
                 raise ValueError("Top-level expression must be an attribute set")
             visited.add(id(target))
 
+            # Wrappers hand on the chain they were given, not their own: a nested
+            # let must compute its own chain so that its bindings shadow outer ones.
+            inherited = scopes
             if scopes is None:
                 scopes = scopes_for_owner(target)
 
-            def resolve_nested(expr, *, scopes=scopes):
+            def resolve_nested(expr, *, scopes=inherited):
                 return resolve_from_expr(expr, scopes=scopes)
 
             match target:
                 case Assertion():
                     if target.body is None:
                         raise ValueError("Unexpected assertion without body")
-                    return resolve_nested(target.body, scopes=scopes)
+                    return resolve_nested(target.body)
                 case LetExpression():
-                    return resolve_nested(target.value, scopes=scopes)
+                    return resolve_nested(target.value)
                 case FunctionDefinition():
                     output = target.output
                     if isinstance(output, FunctionCall):
@@ -224,7 +227,7 @@ class NixSourceCode:
                             "Top-level expression must be an attribute set"
                         )
                     try:
-                        return resolve_nested(output, scopes=scopes)
+                        return resolve_nested(output)
                     except ValueError as exc:
                         raise ValueError(
                             "Top-level expression must be an attribute set"
@@ -240,7 +243,7 @@ class NixSourceCode:
                     resolved = target.value
                     return resolve_nested(resolved, scopes=identifier_scopes)
                 case Parenthesis():
-                    return resolve_nested(target.value, scopes=scopes)
+                    return resolve_nested(target.value)
                 case AttributeSet():
                     return target
                 case FunctionCall():
